@@ -110,6 +110,9 @@ struct Shared {
     /// Some: appends run under this thread-local `metrics` recorder (global-recorder bridge)
     tl_recorder: Option<CountingRecorder>,
     live_bound: u64,
+    /// plan key `children_every` (0 = no entry has a child) and a handle on this very structure for the children
+    children_every: u64,
+    me: Mutex<Option<Arc<Shared>>>,
     /// threads that await a flush future somebody else requested (joined at the end of the run)
     awaiters: Mutex<Vec<detsim::thread::JoinHandle<()>>>,
     /// the plan's schedule seed: decides per flush request whether the future migrates between wakers
@@ -141,6 +144,22 @@ fn do_append(sh: &Shared, h: &Handle, thread: u64, seq: &mut u64) {
 fn do_append_opt(sh: &Shared, h: &Handle, thread: u64, seq: &mut u64, bare: bool) {
     let id = entry_id(thread, *seq);
     *seq += 1;
+    // plan key `children_every`: every k-th entry of a producer owns a child entry, which its destructor appends to
+    // the same queue - wherever that destructor runs (the writer thread after the write, or the thread whose append
+    // displaces the parent from a full queue)
+    if sh.children_every > 0 && thread < 400 && id_seq(id) % sh.children_every == 0 {
+        if let Some(me) = sh.me.lock().unwrap().clone() {
+            let h2 = h.clone();
+            let child_thread = 400 + thread;
+            let child_seq = id_seq(id);
+            if let Ok(mut g) = crate::common::ON_ENTRY_DROP.lock() {
+                g.get_or_insert_with(HashMap::new).insert(id, Box::new(move || {
+                    let mut s = child_seq;
+                    do_append(&me, &h2, child_thread, &mut s);
+                }));
+            }
+        }
+    }
     let me = detsim::current_tid().unwrap();
     if writer_parked(sh) {
         sh.append_while_parked.fetch_add(1, Ordering::SeqCst);
@@ -524,6 +543,8 @@ fn queue_main(plan: &Value, slot: Arc<Mutex<Option<QueueRun>>>) {
         live_bound: liveness_bound(plan).unwrap_or(u64::MAX),
         run_key: ju(plan.get("sched").unwrap_or(&Value::Null), "seed", 0),
         awaiters: Mutex::new(vec![]),
+        children_every: ju(plan, "children_every", 0),
+        me: Mutex::new(None),
         hist: hist.clone(),
         ctl: ctl.clone(),
         stop: AtomicBool::new(false),
@@ -533,6 +554,10 @@ fn queue_main(plan: &Value, slot: Arc<Mutex<Option<QueueRun>>>) {
         flush_while_parked: AtomicU64::new(0),
     });
     let writer_tid = *sh.writer_tid.lock().unwrap();
+    *sh.me.lock().unwrap() = Some(sh.clone());
+    if let Ok(mut g) = crate::common::ON_ENTRY_DROP.lock() {
+        *g = Some(HashMap::new());
+    }
 
     // re-entrant use of the queue from inside its own collaborators (ids in their own spaces)
     thread_local! {
@@ -707,6 +732,10 @@ fn queue_main(plan: &Value, slot: Arc<Mutex<Option<QueueRun>>>) {
     }
     on_next_cb.clear();
     sh.held.lock().unwrap().clear();
+    *sh.me.lock().unwrap() = None;
+    if let Ok(mut g) = crate::common::ON_ENTRY_DROP.lock() {
+        *g = None;
+    }
     let run = QueueRun {
         hist: hist.snapshot(),
         counters: recorder.counters(),
@@ -887,6 +916,11 @@ pub fn check_no_dup_and_order(d: &Digest, class_prefix: &str) -> Option<Violatio
     for id in &d.delivery {
         let t = id_thread(*id);
         let s = id_seq(*id);
+        // (ids 400..799 belong to child entries, appended by whichever thread drops their parent: no single thread
+        // appends them in sequence, the real-time order below is what holds for them)
+        if (400..800).contains(&t) {
+            continue;
+        }
         if let Some(prev) = last.get(&t) {
             if *prev > s {
                 return Some(Violation::new(
@@ -1342,6 +1376,16 @@ fn outage_stratum(mut plan: Value) -> Value {
 
 /// Appends made by destructors while their thread unwinds from a panic: in a tenth of the plans every third append
 /// operation of the producers is made that way.
+/// A sixth of the overflow plans: every second / third / fifth entry of a producer owns a child entry that its
+/// destructor appends to the same queue.
+fn children_stratum(mut plan: Value) -> Value {
+    let h = mix(ju(plan.get("sched").unwrap_or(&Value::Null), "seed", 0), 0xc41d);
+    if h % 6 == 0 && !jb(&plan, "stalled_single", false) && plan.get("default_capacity").and_then(|x| x.as_bool()) != Some(true) && ju(&plan, "capacity", 0) < 1_000 {
+        plan["children_every"] = json!([2u64, 3, 5][(h / 6 % 3) as usize]);
+    }
+    plan
+}
+
 fn unwinding_append_stratum(mut plan: Value) -> Value {
     let h = mix(ju(plan.get("sched").unwrap_or(&Value::Null), "seed", 0), 0xa99e);
     if h % 10 == 0 {
@@ -1680,7 +1724,7 @@ impl Scenario for QueueOverflow {
         "C09"
     }
     fn generate(&self, rng: &mut Rng, tier: Tier) -> Value {
-        outage_stratum(unwinding_append_stratum(huge_timeout_stratum(gen_c09(rng, tier))))
+        children_stratum(outage_stratum(unwinding_append_stratum(huge_timeout_stratum(gen_c09(rng, tier)))))
     }
     fn run(&self, plan: &Value) -> Report {
         let (out, run) = run_queue_plan(plan);
